@@ -216,8 +216,8 @@ def gen_index(rng, shape, advanced=False, allow_none=True, unique_list=False, in
         pos = rng.randint(0, len(items))
         items.insert(pos, None)
         proto.insert(pos, None)
-    if not items and not allow_none:
-        items, proto = [Ellipsis], ["ell"]            # `td[()] = v` is not a supported spelling
+    if not items and not allow_none and rng.random() < 0.5:
+        items, proto = [Ellipsis], ["ell"]            # both `td[...] = v` and `td[()] = v` address the whole batch
     return (tuple(items) if len(items) != 1 or rng.random() < 0.5 else items[0]), proto
 
 
